@@ -498,4 +498,5 @@ def main(tier):
     c16_more.index_range_rule(prog, chk, tuple(UNITS))
     c16_more.validation_subject_rule(prog, chk, tuple(UNITS))
     c16_more.geometry_columns_rule(prog, chk)
+    c16_more.conversion_status_rule(prog, chk)
     return chk.finish()
